@@ -92,12 +92,13 @@ structure Inv (s : St) : Prop where
 
 theorem safe_spec (i : Instr) (h : i.safe = true) (c : Core) :
     (c.stopped = true → (execCore c i).1.stopped = true) ∧
-    ((c.stopped = true → c.cur.live = false) → (execCore c i).1.stopped = true → (execCore c i).1.cur.live = false) := by
+    ((c.stopped = true → c.cur.live = false) → (execCore c i).1.stopped = true → (execCore c i).1.cur.live = false) ∧
+    (c.stopped = true → (execCore c i).2.2.1 = 0) := by
   unfold Instr.safe at h
   have := List.all_eq_true.mp h c (mem_allCore c)
-  simp only [Bool.and_eq_true, Bool.or_eq_true, Bool.not_eq_true'] at this
-  obtain ⟨h1, h2⟩ := this
-  constructor
+  simp only [Bool.and_eq_true, Bool.or_eq_true, Bool.not_eq_true', beq_iff_eq] at this
+  obtain ⟨⟨h1, h2⟩, h3⟩ := this
+  refine ⟨?_, ?_, ?_⟩
   · intro hs
     rcases h1 with h1 | h1
     · rw [hs] at h1; cases h1
@@ -112,6 +113,10 @@ theorem safe_spec (i : Instr) (h : i.safe = true) (c : Core) :
     · rcases h2 with h2 | h2
       · rw [hs'] at h2; cases h2
       · exact h2
+  · intro hs
+    rcases h3 with h3 | h3
+    · rw [hs] at h3; cases h3
+    · exact h3
 
 theorem seals_spec (i : Instr) (h : i.seals = true) (c : Core) : (execCore c i).1.stopped = true ∧ i.isTest = false := by
   unfold Instr.seals at h
@@ -159,7 +164,7 @@ theorem thread_step (c : Core) (leaked others : Nat) (i : Instr) (rest : List In
     rcases hc.2 with h | h
     · exact h
     · omega
-  refine ⟨?_, by omega, hs.2 hsealed, hs.1⟩
+  refine ⟨?_, by omega, hs.2.1 hsealed, hs.1⟩
   have := hc.1
   omega
 
